@@ -58,7 +58,7 @@ static bool gen_c05(uint64_t seed, const std::string &tier, uint64_t i, Plan &p)
 
 // ---------------------------------------------------------------------------------------------- C08
 static std::string c08_addr(Rng &r, bool rcpt) {
-  static const std::vector<std::string> doms = {"l.example", "L.Example", "sub.l.example", "deep.sub.l.example", "more.example", "x.more.example", "More.Example", "X.MORE.example", "evil.example", "lexample", "l.example.evil.example", "[127.0.0.1]", "[10.0.0.7]", "[10.0.0.8]", "[127.0.0.1", "example", "zone-9.example", "ZONE-9.Example", "azone-9.example", "x.zz.example", "X.Zz.EXAMPLE", "caf\xe9.example", "x.\xff\x80.example"};
+  static const std::vector<std::string> doms = {"l.example", "L.Example", "sub.l.example", "deep.sub.l.example", "more.example", "x.more.example", "More.Example", "X.MORE.example", "evil.example", "lexample", "l.example.evil.example", "[127.0.0.1]", "[10.0.0.7]", "[10.0.0.8]", "[127.0.0.1", "[127.0.0.1.1]", "[1.2.3.4.5.6.7.8.9]", "[127.0.0.]", "example", "zone-9.example", "ZONE-9.Example", "azone-9.example", "x.zz.example", "X.Zz.EXAMPLE", "caf\xe9.example", "x.\xff\x80.example"};
   std::string box = r.pick(std::vector<std::string>{"u", "User.Name", "\"quoted box\"", "back\\@slash", "\"a\\\"b\"", "bad", "u%x", ""});
   int form = (int)r.below(12); std::string a;
   std::string d = r.pick(doms);
